@@ -243,6 +243,24 @@ func (w *World) nf(v ssa.Value, depth int) string {
 			}
 			if fp := fieldPath(x); len(fp) > 0 {
 				root := rootOf(x)
+				// a local that is a one-time copy of a struct (name := elt.XMLName): read through the copy
+				if al, ok := root.(*ssa.Alloc); ok && depth < 8 {
+					var src *ssa.UnOp
+					n := 0
+					for _, rf := range *al.Referrers() {
+						if st, ok := rf.(*ssa.Store); ok && st.Addr == ssa.Value(al) {
+							n++
+							if u, ok := st.Val.(*ssa.UnOp); ok && u.Op == token.MUL {
+								src = u
+							}
+						}
+					}
+					if n == 1 && src != nil {
+						if sfp := fieldPath(src); len(sfp) > 0 {
+							return "field:" + w.nf(rootOf(src), depth+1) + "." + fieldNames(sfp) + "." + fieldNames(fp)
+						}
+					}
+				}
 				return "field:" + w.nf(root, depth+1) + "." + fieldNames(fp)
 			}
 			if ia, ok := x.X.(*ssa.IndexAddr); ok {
